@@ -36,6 +36,13 @@ impl Expr {
             }
         }
     }
+    pub fn contains_any(&self) -> bool {
+        match self {
+            Expr::Any => true,
+            Expr::Leaf(_) => false,
+            Expr::And(a, b) | Expr::Minus(a, b) => a.contains_any() || b.contains_any(),
+        }
+    }
     pub fn show(&self) -> String {
         match self {
             Expr::Leaf(t) => format!("[{}]", t),
